@@ -88,6 +88,14 @@ Definition helper_model (c : list tclass * list nat * list (str * value) * cfgda
         nd = dict(K(2, 'Needs', meta_inputs=[{'cls': 0}]), name='needs')
         for real in ([1, 2], [2, 1]):
             out.append(dict(classes=[upm, oc, nd], vals={}, real=real, by_class=False, drop_mock=True, single=False))
+        # an input named by class that is neither tested nor mocked, while a task with the same plain name in some group is
+        # mocked: the missing input is reported, the other task does not stand in for it
+        am = dict(K(0, 'Amounts'), name='amounts')
+        la = dict(K(1, 'LegacyAmounts', group='legacy'), name='amounts')
+        rp = dict(K(2, 'Report', meta_inputs=[{'cls': 0}]), name='report')
+        for single in (True, False):
+            out.append(dict(classes=[am, la, rp], vals={}, real=[2], by_class=False, drop_mock=True, single=single))
+            out.append(dict(classes=[am, la, rp], vals={}, real=[2], by_class=True, drop_mock=True, single=single))
         # a parameter read from another config key than its name, while a different task's parameter bears that name
         pa = dict(K(0, 'Alpha', params=[P('x')]), name='alpha')
         pb = dict(K(1, 'Beta', params=[P('x', cfg='beta_x', default=[5])], meta_inputs=[{'cls': 0}]), name='beta')
@@ -376,9 +384,100 @@ class ParameterIdentity(Suite):
         return repr(case)
 
 
+MOCKKIND_SRC = """
+from taskchain import Task
+from taskchain.data import InMemoryData
+
+SEEN = {}
+
+class Upstream(Task):
+    class Meta:
+        data_class = InMemoryData
+    def run(self) -> str:
+        raise AssertionError('the mocked task was run')
+
+class Consumer(Task):            # looks at its input both ways: as run argument and through self.input_tasks
+    class Meta:
+        input_tasks = [Upstream]
+        data_class = InMemoryData
+    def run(self, upstream) -> str:
+        SEEN['arg'] = upstream
+        SEEN['via_inputs'] = self.input_tasks['upstream'].value
+        return 'done'
+
+class Scaler:                    # an object that can be called (a fitted model, a transformer)
+    def __init__(self):
+        self.calls = 0
+    def __call__(self, *a):
+        self.calls += 1
+        return 'called'
+"""
+
+
+class MockValueKinds(Suite):
+    """the value supplied for a mocked input may be anything - a function, a class, a functools.partial, an object with
+    __call__, a generator function, None, falsy values: the tested task receives that very object, as run argument and
+    through self.input_tasks, and nothing calls it.  Runtime check only."""
+    name = 'mock_value_kinds'
+    model = ''
+    KINDS = ('function', 'lambda', 'class', 'partial', 'callable_object', 'generator_function', 'builtin', 'none', 'zero',
+             'empty_list', 'dict')
+
+    def gen(self, rng, tier):
+        return [dict(kind=k, helper=h, by=b) for k in self.KINDS for h in ('create_test_task', 'TestChain') for b in ('class', 'name')]
+
+    def run_impl(self, case):
+        import functools, sys, types
+        from taskchain.utils.testing import TestChain, create_test_task
+        name = 'tcv_mockkinds'
+        m = types.ModuleType(name)
+        sys.modules[name] = m
+        try:
+            exec(compile(MOCKKIND_SRC, name, 'exec'), m.__dict__)
+            for c in (m.Upstream, m.Consumer):
+                c.__module__ = name
+            calls = []
+
+            def fn(*a):
+                calls.append(a)
+                return 'fn result'
+
+            def genf():
+                calls.append('gen')
+                yield 1
+            scaler = m.Scaler()
+            value = {'function': fn, 'lambda': (lambda: calls.append('lambda') or 'lambda result'), 'class': m.Scaler,
+                     'partial': functools.partial(fn, 1), 'callable_object': scaler, 'generator_function': genf, 'builtin': len,
+                     'none': None, 'zero': 0, 'empty_list': [], 'dict': {'a': 1}}[case['kind']]
+            mocks = {(m.Upstream if case['by'] == 'class' else 'upstream'): value}
+            if case['helper'] == 'create_test_task':
+                t = create_test_task(m.Consumer, input_tasks=mocks)
+            else:
+                t = TestChain([m.Consumer], mock_tasks=mocks)['consumer']
+            out = t.value
+            return dict(out=out, arg_is=m.SEEN.get('arg') is value, via_is=m.SEEN.get('via_inputs') is value,
+                        arg=repr(m.SEEN.get('arg'))[:80], calls=len(calls) + scaler.calls)
+        finally:
+            sys.modules.pop(name, None)
+
+    def oracle(self, case, obs):
+        if 'unexpected_exception' in obs:
+            return f'unexpected exception {obs["unexpected_exception"]}: {obs["text"]}'
+        if not obs['arg_is'] or not obs['via_is'] or obs['calls'] or obs['out'] != 'done':
+            return (f'{case}: the tested task received {obs["arg"]} (the supplied object as argument: {obs["arg_is"]}, through '
+                    f'input_tasks: {obs["via_is"]}); the supplied value was called {obs["calls"]} time(s)')
+        return None
+
+    def nontrivial(self, case, obs):
+        return True
+
+    def key(self, case):
+        return repr(case)
+
+
 class C19(Prop):
     pid = 'C19'
-    suites = [Helpers(), ParameterIdentity()]
+    suites = [Helpers(), ParameterIdentity(), MockValueKinds()]
     assumptions = ['a fresh base_dir per helper (the helpers persist under the config name `test`)']
 
 
